@@ -8,6 +8,7 @@
 import Msmart.Lemmas.CodecEq
 import Msmart.Crypto.ModeProps
 import Msmart.Model.Reassembly
+import Msmart.Model.Response
 
 set_option linter.unusedSimpArgs false
 set_option linter.unusedVariables false
@@ -607,6 +608,114 @@ theorem reasmStep_eq (buffer : Bytes) : Codec.reasmStep buffer = .ok (Model.reas
            · rw [if_neg (by simpa using (by omega : ¬ (((buffer.drop start).length : Nat) : Int) < ((sizeField (buffer.drop start) : Nat) : Int) + 8)), if_neg ht]
              have e : ((sizeField (buffer.drop start) : Nat) : Int) + 8 = ((sizeField (buffer.drop start) + 8 : Nat) : Int) := by omega
              rw [e, slice_take, slice_drop]; rfl)
+  | rfl
+
+
+/-! ### Response._construct: frame check, class dispatch, body check, payload slice -/
+
+theorem drop_dropLast {α} (l : List α) (a : Nat) : (l.drop a).dropLast = (l.take (l.length - 1)).drop a := by
+  rw [List.dropLast_eq_take, List.length_drop, List.drop_take]
+  congr 1
+  omega
+
+theorem sl_10_m1 (l : Bytes) : Py.slice l (some 10) (some (-1)) = (l.drop 10).dropLast := by
+  have := slice_mid_neg l 10 1 (by decide)
+  rw [drop_dropLast]; simpa using this
+
+theorem sl_10_m2 (l : Bytes) : Py.slice l (some 10) (some (-2)) = ((l.drop 10).dropLast).dropLast := by
+  have := slice_mid_neg l 10 2 (by decide)
+  rw [drop_dropLast, List.dropLast_eq_take, List.length_drop, List.length_take, List.drop_take]
+  have e : Py.slice l (some 10) (some (-2)) = (l.take (l.length - 2)).drop 10 := by simpa using this
+  rw [e, List.drop_take, List.take_take]
+  congr 1
+  omega
+
+theorem u8c (x : UInt8) (n : Nat) (hn : n < 256) : ((n : Int) = (x.toNat : Int)) ↔ x = n.toUInt8 := by
+  constructor
+  · intro h
+    apply UInt8.toNat_inj.mp
+    have : x.toNat = n := by omega
+    rw [this]; simp [Nat.toUInt8, Nat.mod_eq_of_lt hn]
+  · intro h; subst h; simp [Nat.toUInt8, Nat.mod_eq_of_lt hn]
+
+theorem u8c' (x : UInt8) (n : Nat) (hn : n < 256) (k : Int) (hk : k = (n : Int)) : (k = (x.toNat : Int)) ↔ x = n.toUInt8 := by
+  subst hk; exact u8c x n hn
+
+theorem idx_get (l : Bytes) (i : Nat) : Py.idx l i = (match l[i]? with | some x => .ok x | none => .error indexError) := by
+  unfold Py.idx; cases l[i]? <;> rfl
+
+/-- **tie.** `Response._construct` up to the constructor call, as translated = the model's, for every frame. -/
+theorem constructDispatch_eq (frame : Bytes) : Codec.constructDispatch frame = Model.constructDispatch frame := by
+  first
+  | (
+       unfold Codec.constructDispatch Model.constructDispatch
+       rw [frameValidate_eq]
+       cases hv : Model.frameValidate frame with
+       | error e => rfl
+       | ok u =>
+         simp only [ok_bind, responseValidate_eq, sl_10_m1, sl_10_m2]
+         have i9 : Py.indexI frame 9 = _ := indexI_nat frame 9
+         have i10 : Py.indexI frame 10 = _ := indexI_nat frame 10
+         have i13 : Py.indexI frame 13 = _ := indexI_nat frame 13
+         rw [i9, i10]
+         unfold respClass
+         rw [idx_get frame 9, idx_get frame 10]
+         cases h9 : frame[9]? with
+         | none => rfl
+         | some x9 =>
+           cases h10 : frame[10]? with
+           | none => rfl
+           | some x10 =>
+             simp only [ok_bind]
+             by_cases hC0 : x10 = 0xC0
+             · subst hC0
+               simp [validateUnlessProps, RespClass.tag]
+             · have n192 : ¬ ((192 : Int) = (x10.toNat : Int)) := fun e => hC0 ((u8c' x10 192 (by decide) 192 rfl).mp e)
+               by_cases hB5 : x10 = 0xB5
+               · subst hB5
+                 by_cases h3 : x9 = 3
+                 · subst h3
+                   simp [validateUnlessProps, RespClass.tag, ftQuery]
+                 · have n3 : ¬ ((3 : Int) = (x9.toNat : Int)) := fun e => h3 ((u8c' x9 3 (by decide) 3 rfl).mp e)
+                   simp [validateUnlessProps, RespClass.tag, ftQuery, n3, h3]
+                   first | done | rfl
+               · have n181 : ¬ ((181 : Int) = (x10.toNat : Int)) := fun e => hB5 ((u8c' x10 181 (by decide) 181 rfl).mp e)
+                 by_cases hB0 : x10 = 0xB0
+                 · subst hB0
+                   simp [validateUnlessProps, RespClass.tag]
+                   first | done | rfl
+                 · have n176 : ¬ ((176 : Int) = (x10.toNat : Int)) := fun e => hB0 ((u8c' x10 176 (by decide) 176 rfl).mp e)
+                   by_cases hB1 : x10 = 0xB1
+                   · subst hB1
+                     simp [validateUnlessProps, RespClass.tag]
+                     first | done | rfl
+                   · have n177 : ¬ ((177 : Int) = (x10.toNat : Int)) := fun e => hB1 ((u8c' x10 177 (by decide) 177 rfl).mp e)
+                     by_cases hC1 : x10 = 0xC1
+                     · subst hC1
+                       rw [i13, idx_get frame 13]
+                       cases h13 : frame[13]? with
+                       | none => first | rfl | (simp; done) | (simp; rfl)
+                       | some x13 =>
+                         have hb : Py.band (x13.toNat : Int) 15 = ((x13.toNat % 16 : Nat) : Int) := by
+                           rw [band_15]; omega
+                         have hand : (x13 &&& 0xF).toNat = x13.toNat % 16 := by
+                           rw [UInt8.toNat_and]; exact Nat.and_two_pow_sub_one_eq_mod x13.toNat 4
+                         simp only [ok_bind, hb]
+                         by_cases g4 : x13 &&& 0xF = 4
+                         · have : x13.toNat % 16 = 4 := by rw [← hand, g4]; rfl
+                           simp [validateUnlessProps, RespClass.tag, hb, this, g4]
+                         · have n4 : ¬ x13.toNat % 16 = 4 := fun e => g4 (UInt8.toNat_inj.mp (by rw [hand, e]; rfl))
+                           by_cases g5 : x13 &&& 0xF = 5
+                           · have : x13.toNat % 16 = 5 := by rw [← hand, g5]; rfl
+                             simp [validateUnlessProps, RespClass.tag, hb, this, g5]
+                           · have n5 : ¬ x13.toNat % 16 = 5 := fun e => g5 (UInt8.toNat_inj.mp (by rw [hand, e]; rfl))
+                             have n4' : ¬ ((4 : Int) = ((x13.toNat % 16 : Nat) : Int)) := by omega
+                             have n5' : ¬ ((5 : Int) = ((x13.toNat % 16 : Nat) : Int)) := by omega
+                             have n4'' : ¬ ((4 : Int) = (x13.toNat : Int) % 16) := by omega
+                             have n5'' : ¬ ((5 : Int) = (x13.toNat : Int) % 16) := by omega
+                             simp [validateUnlessProps, RespClass.tag, hb, g4, g5, n4', n5', n4'', n5'']
+                     · have n193 : ¬ ((193 : Int) = (x10.toNat : Int)) := fun e => hC1 ((u8c' x10 193 (by decide) 193 rfl).mp e)
+                       simp [validateUnlessProps, RespClass.tag, hC0, hB5, hB0, hB1, hC1, n192, n181, n176, n177, n193])
   | rfl
 
 
